@@ -288,7 +288,7 @@ func init() {
 		opts:    sg.Opts{MaxDepth: 3, PNullable: 0.25, PDefault: 0.35, PAddProps: 0.25, W: map[string]float64{"compose": 1.5}},
 		classes: docgen.Classes{"required": true, "bound": true, "string": true, "enum": true, "items": true, "default": true, "delopt": true, "nullok": true},
 		own: func(d docgen.Doc, mr model.Result) bool {
-			if mr.V == model.Accept {
+			if mr.V == model.Accept || d.Class == "formatparity" || d.Class == "pinned" {
 				return true
 			}
 			// exactly one violated rule of the kinds the statement names
@@ -321,6 +321,8 @@ func init() {
 					return c
 				} else if k -= ctx.N(32, 160); k < 12 {
 					return dashNameCase(k)
+				} else if k -= 12; k < 5 {
+					return lenientFormatCase(k)
 				}
 				return nil
 			}
@@ -1227,6 +1229,31 @@ func nullItemsCase(i int) *sem.Case {
 	}
 	for _, g := range [][]any{{[]any{nil}}, {[]any{false}}, {[]any{nil, []any{jsonx.N(1)}}}, {[]any{}, []any{nil, nil}}, {[]any{"s"}}} {
 		c.Docs = append(c.Docs, docgen.Doc{V: base.Set("grid", g), Class: "typefault", Label: "grid"})
+	}
+	return c
+}
+
+// LenientFormatTexts are texts next to the canonical forms: whether a decoder takes them is not asserted (the model
+// says DontCare), but it must not panic on them, and the JSON and the YAML path must agree.
+var LenientFormatTexts = map[string][]string{
+	"time":      {"", "Z", "09:30:00.500", "09:30:00Z", "09:30:00+02:00", "24:00:00", "9:30:00", "09:30", "09:30:60", " 09:30:00", "09:30:00 ", "７:00:00"},
+	"date":      {"", "2024-2-3", "2024-02-30", "24-02-03", "2024/02/03", "2024-02-03T00:00:00Z", " 2024-02-03", "0000-01-01", "+2024-02-03", "２０２４-02-03"},
+	"date-time": {"", "2024-02-03", "2024-02-03T10:00:00", "2024-02-03t10:00:00z", "2024-02-03 10:00:00Z", "2024-02-03T10:00:00+2", "2024-02-03T24:00:00Z", "2024-02-03T10:00:00.Z", "2024-02-03T10:00:60Z"},
+	"ipv4":      {"", "1.2.3", "1.2.3.4.5", "256.1.1.1", "01.02.03.004", "1.2.3.4/24", " 1.2.3.4", "::1", "1.2.3.4%eth0"},
+	"ipv6":      {"", "1.2.3.4", "::ffff:1.2.3.4", "fe80::1%eth0", "2001:DB8::1", "0:0:0:0:0:0:0:1", "[::1]", ":::", "2001:db8::1/64"},
+}
+
+// lenientFormatCase: one format at required / optional / nullable / array-item positions; one document per text.
+func lenientFormatCase(i int) *sem.Case {
+	formats := []string{"time", "date", "date-time", "ipv4", "ipv6"}
+	f := formats[i%len(formats)]
+	fs := func() *sg.Schema { return &sg.Schema{Types: []string{"string"}, Format: f} }
+	root := &sg.Schema{Types: []string{"object"}, Props: []sg.Prop{{Name: "req", S: fs()}, {Name: "opt", S: fs()}, {Name: "nul", S: &sg.Schema{Types: []string{"string", "null"}, Format: f}}, {Name: "list", S: &sg.Schema{Types: []string{"array"}, Items: fs()}}}, Required: []string{"req"}}
+	c := &sem.Case{Root: root, Sig: "lenient-format/" + f, NoAuto: true, Args: []string{"--extra-imports"}}
+	good := docgen.FormatSamples[f][0]
+	for _, txt := range LenientFormatTexts[f] {
+		c.Docs = append(c.Docs, docgen.Doc{V: jsonx.Obj{{K: "req", V: txt}}, Class: "formatparity", Label: "req"}, docgen.Doc{V: jsonx.Obj{{K: "req", V: good}, {K: "opt", V: txt}}, Class: "formatparity", Label: "opt"},
+			docgen.Doc{V: jsonx.Obj{{K: "req", V: good}, {K: "nul", V: txt}}, Class: "formatparity", Label: "nul"}, docgen.Doc{V: jsonx.Obj{{K: "req", V: good}, {K: "list", V: []any{good, txt}}}, Class: "formatparity", Label: "list"})
 	}
 	return c
 }
